@@ -34,7 +34,9 @@ def merge_stats(stats_list):
     tot = {}
     for s in stats_list:
         for k, v in s.items():
-            if isinstance(v, dict):
+            if isinstance(v, list):
+                tot.setdefault(k, []).extend(v)
+            elif isinstance(v, dict):
                 d = tot.setdefault(k, {})
                 for a, b in v.items():
                     d[a] = d.get(a, 0) + b
